@@ -28,6 +28,9 @@
 #include "llvm/Bitcode/BitcodeWriter.h"
 #include "llvm/Support/FileSystem.h"
 #include "llvm/IR/Dominators.h"
+#include "llvm/IR/LegacyPassManager.h"
+#include "llvm/Transforms/Scalar.h"
+#include "llvm/Transforms/Utils.h"
 #include <map>
 #include <set>
 #include <string>
@@ -492,6 +495,9 @@ static int markAccessors(Module &M) {
           if (auto *L = dyn_cast<LoadInst>(&I)) if (L->isAtomic() || L->isVolatile()) { ok = false; break; }
           if (auto *CB = dyn_cast<CallBase>(&I)) {
             Function *cf = dyn_cast<Function>(CB->getCalledOperand()->stripPointerCasts());
+            // a call through a function pointer the helper received as a parameter (a comparison callback): the helper
+            // is a predicate / selector over its arguments ("is the child in range and greater?")
+            if (!cf && isa<Argument>(CB->getCalledOperand()->stripPointerCasts())) continue;
             if (!cf || cf == &F || !acc.count(cf)) { ok = false; break; }
           }
         }
@@ -502,8 +508,118 @@ static int markAccessors(Module &M) {
       acc.insert(&F); changed = true;
     }
   }
-  for (auto *F : acc) F->addFnAttr(Attribute::AlwaysInline);
+  // "field setters": a private helper of the unit's own .c file whose only effect is ONE store of an argument or constant
+  // through a pointer computed (by accessors) from its arguments -- `paint(node, colour)`, `set_next(n, x)`.  The write
+  // is the caller's write; naming it is not a change of behaviour.
+  for (auto &F : M) {
+    if (F.isDeclaration() || F.isVarArg() || acc.count(&F) || !F.hasLocalLinkage()) continue;
+    if (F.hasFnAttribute(Attribute::NoInline) || F.hasFnAttribute(Attribute::OptimizeNone)) continue;
+    if (auto *SP = F.getSubprogram()) { if (SP->getFilename().endswith(".h")) continue; } else continue;
+    if (!F.getReturnType()->isVoidTy()) continue;
+    unsigned n = 0, stores = 0; bool ok = true;
+    for (auto &BB : F) for (auto &I : BB) {
+      if (isa<DbgInfoIntrinsic>(&I)) continue;
+      n++;
+      if (auto *S = dyn_cast<StoreInst>(&I)) {
+        stores++;
+        Value *V = S->getValueOperand();
+        if (S->isAtomic() || S->isVolatile() || !(isa<Argument>(V) || isa<Constant>(V))) ok = false;
+      } else if (isa<AtomicRMWInst>(&I) || isa<AtomicCmpXchgInst>(&I) || isa<UnreachableInst>(&I) || isa<AllocaInst>(&I) || isa<InvokeInst>(&I) || isa<FenceInst>(&I)) ok = false;
+      else if (auto *L = dyn_cast<LoadInst>(&I)) { if (L->isAtomic() || L->isVolatile()) ok = false; }
+      else if (auto *CB = dyn_cast<CallBase>(&I)) {
+        Function *cf = dyn_cast<Function>(CB->getCalledOperand()->stripPointerCasts());
+        if (!cf || !acc.count(cf)) ok = false;
+      }
+    }
+    if (!ok || stores != 1 || n > 24 || F.size() != 1) continue;
+    acc.insert(&F);
+    if (getenv("IRDUMP_VERBOSE")) errs() << "setter: " << F.getName() << "\n";
+  }
+  for (auto *F : acc) { F->addFnAttr(Attribute::AlwaysInline); if (getenv("IRDUMP_VERBOSE")) errs() << "accessor: " << F->getName() << "\n"; }
   return (int)acc.size();
+}
+
+// ---- cursor helpers -----------------------------------------------------------------------------
+// A "cursor helper" is a private function that works on a caller's *local* object: it has a pointer-to-struct parameter
+// and at every call site the argument is the address of a stack object of the caller (or the caller's own such
+// parameter).  An iterator/cursor struct with init/next helpers, or a worker that fills two local lists, is the same
+// program as the open-coded loop; the helpers are inlined and the stack object split into scalars (SROA) in the
+// functions that own it, so that a memory-resident induction variable is an SSA value again.
+static bool cursorArgOK(Value *A, const std::map<Function *, std::set<unsigned>> &cand) {
+  A = A->stripPointerCasts();
+  if (auto *G = dyn_cast<GEPOperator>(A)) if (G->hasAllZeroIndices()) A = G->getPointerOperand()->stripPointerCasts();
+  if (auto *AI = dyn_cast<AllocaInst>(A)) return AI->getAllocatedType()->isStructTy() && !AI->isArrayAllocation();
+  if (auto *Arg = dyn_cast<Argument>(A)) {
+    auto it = cand.find(Arg->getParent());
+    return it != cand.end() && it->second.count(Arg->getArgNo());
+  }
+  return false;
+}
+static int markCursorHelpers(Module &M) {
+  std::map<Function *, std::set<unsigned>> cand;
+  // the object must be of a type the unit declares for itself (struct xyz_iter in the .c file): a public type
+  // (a list, an iterator handed to callers) is part of the API and the rules name its builders
+  Ctx DC; DC.M = &M; DC.DL = &M.getDataLayout();
+  buildDI(DC);
+  auto unitPrivate = [&](Type *T) {
+    auto *ST = dyn_cast<StructType>(T);
+    if (!ST) return false;
+    auto it = DC.st2di.find(ST);
+    if (it == DC.st2di.end() || !it->second->getFile()) return false;
+    return it->second->getFile()->getFilename().endswith(".c");
+  };
+  for (auto &F : M) {
+    if (F.isDeclaration() || F.isVarArg() || !F.hasLocalLinkage()) continue;
+    if (F.hasFnAttribute(Attribute::NoInline) || F.hasFnAttribute(Attribute::OptimizeNone)) continue;
+    bool rec = false, addrTaken = false;
+    for (auto &BB : F) for (auto &I : BB) if (auto *CB = dyn_cast<CallBase>(&I))
+      if (dyn_cast<Function>(CB->getCalledOperand()->stripPointerCasts()) == &F) rec = true;
+    for (auto *U : F.users()) { auto *CB = dyn_cast<CallBase>(U); if (!CB || CB->getCalledOperand()->stripPointerCasts() != &F) addrTaken = true; }
+    if (rec || addrTaken || F.use_empty()) continue;
+    // only helpers written in the unit's own .c file: a static inline of a public header is API, and the other units
+    // (and the amalgam) see other callers of it
+    if (auto *SP = F.getSubprogram()) { if (SP->getFilename().endswith(".h")) continue; } else continue;
+    std::set<unsigned> ps;
+    for (auto &A : F.args()) if (auto *PT = dyn_cast<PointerType>(A.getType())) if (unitPrivate(PT->getPointerElementType())) ps.insert(A.getArgNo());
+    if (!ps.empty()) cand[&F] = ps;
+  }
+  bool changed = true;
+  while (changed) {
+    changed = false;
+    for (auto it = cand.begin(); it != cand.end();) {
+      Function *F = it->first;
+      std::set<unsigned> keep;
+      for (unsigned k : it->second) {
+        bool ok = true;
+        for (auto *U : F->users()) { auto *CB = cast<CallBase>(U); if (k >= CB->arg_size() || !cursorArgOK(CB->getArgOperand(k), cand)) { ok = false; break; } }
+        if (ok) keep.insert(k);
+      }
+      if (keep.size() != it->second.size()) changed = true;
+      if (keep.empty()) it = cand.erase(it); else { it->second = keep; ++it; }
+    }
+  }
+  for (auto &kv : cand) {
+    kv.first->addFnAttr(Attribute::AlwaysInline);
+    kv.first->addFnAttr("cstlsa-cursor");
+    if (getenv("IRDUMP_VERBOSE")) errs() << "cursor helper: " << kv.first->getName() << "\n";
+    for (auto *U : kv.first->users()) cast<CallBase>(U)->getFunction()->addFnAttr("cstlsa-sroa");
+  }
+  // the owner of the stack object may be reached through a chain of helpers
+  changed = true;
+  while (changed) {
+    changed = false;
+    for (auto &F : M) if (F.hasFnAttribute("cstlsa-sroa") && F.hasFnAttribute(Attribute::AlwaysInline))
+      for (auto *U : F.users()) if (auto *CB = dyn_cast<CallBase>(U)) if (!CB->getFunction()->hasFnAttribute("cstlsa-sroa")) { CB->getFunction()->addFnAttr("cstlsa-sroa"); changed = true; }
+  }
+  return (int)cand.size();
+}
+static void sroaMarked(Module &M) {
+  legacy::FunctionPassManager FPM(&M);
+  FPM.add(createSROAPass());
+  FPM.add(createEarlyCSEPass(true));
+  FPM.doInitialization();
+  for (auto &F : M) if (!F.isDeclaration() && F.hasFnAttribute("cstlsa-sroa")) FPM.run(F);
+  FPM.doFinalization();
 }
 
 int main(int argc, char **argv) {
@@ -512,11 +628,12 @@ int main(int argc, char **argv) {
     std::unique_ptr<Module> M = parseIRFile(argv[2], Err, Cx);
     if (!M) { Err.print(argv[0], errs()); return 2; }
     int n = markAccessors(*M);
+    int nc = markCursorHelpers(*M);
     std::error_code EC;
     raw_fd_ostream OS(argv[3], EC, sys::fs::OF_None);
     if (EC) { errs() << EC.message() << "\n"; return 2; }
     WriteBitcodeToFile(*M, OS);
-    outs() << n << "\n";
+    outs() << n << " " << nc << "\n";
     return 0;
   }
   if (argc >= 5 && std::string(argv[1]) == "--mark-static") {
@@ -552,6 +669,7 @@ int main(int argc, char **argv) {
   LLVMContext Cx; SMDiagnostic Err;
   std::unique_ptr<Module> M = parseIRFile(argv[1], Err, Cx);
   if (!M) { Err.print(argv[0], errs()); return 2; }
+  sroaMarked(*M);
   Ctx C; C.M = M.get(); C.DL = &M->getDataLayout();
   GC = &C;
   buildDI(C);
